@@ -132,6 +132,14 @@ fn expect(op: &str, x: u32) -> Option<u64> {
         }
         "from_i32" => { let i = x as i32; if i == 0 { 0 } else { neg32(enc(32, 2, i.unsigned_abs() as u128, 0, false), i < 0) as u64 } }
         "from_u32" => { if x == 0 { 0 } else { enc(32, 2, x as u128, 0, false) as u64 } }
+        "classify" => if x == 0 { 2 } else if x == NAR { 0 } else { 4 },
+        // round trips through f64 and through the decimal text are the identity on every pattern (C03)
+        "rt_f64" | "rt_str" => x as u64,
+        // 64-bit integer sources: every value below 2^32 / every 32-bit signed value (P16E1 saturates from 2^28, P8E0 from 2^6 on)
+        "p16_from_u64" => if x == 0 { 0 } else { enc(16, 1, x as u128, 0, false) as u64 },
+        "p8_from_u64" => if x == 0 { 0 } else { enc(8, 0, x as u128, 0, false) as u64 },
+        "p16_from_i64" | "p8_from_i64" => { let (n, es) = if op == "p16_from_i64" { (16, 1) } else { (8, 0) }; let i = x as i32;
+            if i == 0 { 0 } else { let p = enc(n, es, i.unsigned_abs() as u128, 0, false); (if i < 0 { p.wrapping_neg() & ((1u32 << n) - 1) } else { p }) as u64 } }
         "from_f32" => from_f32_ref(32, 2, x) as u64,
         "p16_from_f32" => from_f32_ref(16, 1, x) as u64,
         "p8_from_f32" => from_f32_ref(8, 0, x) as u64,
@@ -147,6 +155,11 @@ fn actual(op: &str, x: u32) -> u64 {
         "to_f64" => p.to_f64().to_bits(), "to_f32" => p.to_f32().to_bits() as u64,
         "to_p16_m" => p.to_p16e1().to_bits() as u64, "to_p8_m" => p.to_p8e0().to_bits() as u64,
         "from_i32" => P32E2::from_i32(x as i32).to_bits() as u64, "from_u32" => P32E2::from_u32(x).to_bits() as u64,
+        "rt_f64" => P32E2::from(f64::from(p)).to_bits() as u64,
+        "rt_str" => p.to_string().parse::<P32E2>().map(|q| q.to_bits() as u64).unwrap_or(u64::MAX),
+        "classify" => match p.classify() { core::num::FpCategory::Nan => 0, core::num::FpCategory::Infinite => 1, core::num::FpCategory::Zero => 2, core::num::FpCategory::Subnormal => 3, core::num::FpCategory::Normal => 4 },
+        "p16_from_u64" => P16E1::from_u64(x as u64).to_bits() as u64, "p8_from_u64" => P8E0::from_u64(x as u64).to_bits() as u64,
+        "p16_from_i64" => P16E1::from_i64(x as i32 as i64).to_bits() as u64, "p8_from_i64" => P8E0::from_i64(x as i32 as i64).to_bits() as u64,
         "from_f32" => P32E2::from_f32(f32::from_bits(x)).to_bits() as u64,
         "p16_from_f32" => P16E1::from_f32(f32::from_bits(x)).to_bits() as u64,
         "p8_from_f32" => P8E0::from_f32(f32::from_bits(x)).to_bits() as u64,
@@ -154,10 +167,43 @@ fn actual(op: &str, x: u32) -> u64 {
     }
 }
 pub const OPS: &[&str] = &["sqrt", "round", "floor", "ceil", "trunc", "fract", "to_i32", "to_u32", "to_i64", "to_u64", "to_f64", "to_f32",
-                           "to_p16_m", "to_p8_m", "from_i32", "from_u32", "from_f32", "p16_from_f32", "p8_from_f32"];
+                           "to_p16_m", "to_p8_m", "from_i32", "from_u32", "from_f32", "p16_from_f32", "p8_from_f32",
+                           "classify", "rt_f64", "rt_str", "p16_from_u64", "p16_from_i64", "p8_from_u64", "p8_from_i64", "from_u64w", "from_i64w"];
+
+/// P32E2 from 64-bit integers cannot be enumerated: every 32-bit significand x at the shifts 1, 7, 20, 32, with and without a low sticky bit
+fn scan64(op: &'static str, cap: usize) {
+    let nthreads = std::thread::available_parallelism().map(|n| n.get()).unwrap_or(4).min(16) as u64;
+    let total: u64 = 1 << 32;
+    let mut handles = Vec::new();
+    for t in 0..nthreads {
+        let (lo, hi) = (t * total / nthreads, (t + 1) * total / nthreads);
+        handles.push(std::thread::spawn(move || {
+            let mut bad: Vec<u64> = Vec::new();
+            let stride: usize = std::env::var("VERIF_SCAN_STRIDE").ok().and_then(|v| v.parse().ok()).unwrap_or(4);
+            for x in (lo..hi).step_by(stride) {
+                for s in [1u32, 7, 20, 32] { for st in [0u64, 1] {
+                    let a: u64 = ((x as u64) << s) | st;
+                    let (want, got) = if op == "from_u64w" {
+                        (if a == 0 { 0 } else { enc(32, 2, a as u128, 0, false) }, std::panic::catch_unwind(|| P32E2::from_u64(a).to_bits()))
+                    } else {
+                        let i = a as i64;
+                        (if i == 0 { 0 } else { neg32(enc(32, 2, i.unsigned_abs() as u128, 0, false), i < 0) }, std::panic::catch_unwind(|| P32E2::from_i64(i).to_bits()))
+                    };
+                    if !matches!(got, Ok(v) if v == want) && bad.len() < cap { bad.push(a); }
+                } }
+            }
+            bad
+        }));
+    }
+    let name = if op == "from_u64w" { "from_u64" } else { "from_i64" };
+    let mut out = String::new();
+    for h in handles { for a in h.join().unwrap() { out.push_str(&format!("p32 {} {:x}\n", name, a)); } }
+    print!("{}", out);
+}
 
 pub fn scan(op: &'static str, cap: usize) {
     std::panic::set_hook(Box::new(|_| {}));
+    if op == "from_u64w" || op == "from_i64w" { return scan64(op, cap); }
     let nthreads = std::thread::available_parallelism().map(|n| n.get()).unwrap_or(4).min(16) as u64;
     let total: u64 = 1 << 32;
     let mut handles = Vec::new();
@@ -165,7 +211,8 @@ pub fn scan(op: &'static str, cap: usize) {
         let (lo, hi) = (t * total / nthreads, (t + 1) * total / nthreads);
         handles.push(std::thread::spawn(move || {
             let mut bad: Vec<u32> = Vec::new();
-            for x in lo..hi {
+            let stride: usize = if op == "rt_str" { std::env::var("VERIF_SCAN_STRIDE").ok().and_then(|v| v.parse().ok()).unwrap_or(16) } else { 1 };
+            for x in (lo..hi).step_by(stride) {
                 let x = x as u32;
                 if let Some(want) = expect(op, x) {
                     let got = std::panic::catch_unwind(|| actual(op, x));
@@ -175,8 +222,10 @@ pub fn scan(op: &'static str, cap: usize) {
             bad
         }));
     }
-    let (ty, name) = match op { "p16_from_f32" => ("p16", "from_f32"), "p8_from_f32" => ("p8", "from_f32"), o => ("p32", o) };
+    let (ty, name) = match op { "p16_from_f32" => ("p16", "from_f32"), "p8_from_f32" => ("p8", "from_f32"), "p16_from_u64" => ("p16", "from_u64"),
+        "p16_from_i64" => ("p16", "from_i64"), "p8_from_u64" => ("p8", "from_u64"), "p8_from_i64" => ("p8", "from_i64"), o => ("p32", o) };
     let mut out = String::new();
-    for h in handles { for x in h.join().unwrap() { out.push_str(&format!("{} {} {:x}\n", ty, name, x)); } }
+    let sext = op == "p16_from_i64" || op == "p8_from_i64";
+    for h in handles { for x in h.join().unwrap() { if sext { out.push_str(&format!("{} {} {:x}\n", ty, name, x as i32 as i64 as u64)); } else { out.push_str(&format!("{} {} {:x}\n", ty, name, x)); } } }
     print!("{}", out);
 }
